@@ -62,6 +62,7 @@ type retInfo struct {
 	guard *Term
 	vals  []Val
 	st    *State
+	block int
 }
 
 type Frame struct {
@@ -491,9 +492,33 @@ func (fr *Frame) exec(st *State, g *Term) []retInfo {
 		var bst *State
 		var guards []*Term
 		var sts []*State
+		var preds []int
 		for _, e := range in {
 			guards = append(guards, e.guard)
 			sts = append(sts, e.st)
+			if e.pred != nil {
+				preds = append(preds, e.pred.Index)
+			} else {
+				preds = append(preds, -1)
+			}
+		}
+		if fr.depth == 0 {
+			// path-based slicing: remember which block the following assertions belong to, and who can reach it
+			if c.topAnc == nil {
+				c.topAnc = map[int]map[int]bool{}
+			}
+			anc := map[int]bool{}
+			for _, e := range in {
+				if e.pred != nil {
+					anc[e.pred.Index] = true
+					for a := range c.topAnc[e.pred.Index] {
+						anc[a] = true
+					}
+				}
+			}
+			c.topAnc[b.Index] = anc
+			c.markBlock(b.Index)
+			c.curJoinPreds = preds
 		}
 		bg = c.define("g."+fn.Name()+"."+fmt.Sprint(b.Index), tOr(guards...))
 		if ord, isLoop := fr.loops[b]; isLoop {
@@ -575,6 +600,9 @@ func (fr *Frame) exec(st *State, g *Term) []retInfo {
 				fr.vals[phi] = fr.mergePhi(phi, b, in)
 			}
 		}
+		if fr.depth == 0 {
+			c.curJoinPreds = nil
+		}
 		// instructions
 		alive := true
 		for _, ins := range b.Instrs {
@@ -596,7 +624,7 @@ func (fr *Frame) exec(st *State, g *Term) []retInfo {
 				for _, r := range x.Results {
 					vs = append(vs, fr.get(r))
 				}
-				rets = append(rets, retInfo{guard: bg, vals: vs, st: bst})
+				rets = append(rets, retInfo{guard: bg, vals: vs, st: bst, block: b.Index})
 			case *ssa.Panic:
 				fr.panicSite(bg, bst, "explicit", x.Pos(), fr.describePanic(x))
 			default:
@@ -616,6 +644,9 @@ func (fr *Frame) exec(st *State, g *Term) []retInfo {
 		}
 		fr.pending = nil
 		c.curWriteKeys = c.curWriteKeys[:len(c.curWriteKeys)-1]
+	}
+	if fr.depth == 0 {
+		c.markBlock(-1)
 	}
 	return rets
 }
@@ -683,11 +714,36 @@ func (fr *Frame) mergePhi(phi *ssa.Phi, b *ssa.BasicBlock, in []edgeIn) Val {
 		c.warn("phi %s of non-term values in %s", phi.Name(), fr.fn.Name())
 		return gvs[0].v
 	}
-	res := c.valTerm(gvs[len(gvs)-1].v, phi.Name())
-	for i := len(gvs) - 2; i >= 0; i-- {
-		res = tIte(gvs[i].g, c.valTerm(gvs[i].v, phi.Name()), res)
+	var out Val
+	if fr.depth == 0 && len(gvs) > 2 {
+		// many incoming edges: one guarded definition per edge, so that path-based slicing can drop the edges an
+		// obligation cannot come from
+		allSame := true
+		for _, x := range gvs[1:] {
+			if c.valTerm(x.v, "").S != c.valTerm(gvs[0].v, "").S {
+				allSame = false
+			}
+		}
+		if allSame {
+			out = gvs[0].v
+		} else {
+			v := c.fresh(phi.Comment+"."+phi.Name(), c.sortOf(phi.Type()))
+			for i, x := range gvs {
+				pred := -1
+				if i < len(in) && in[i].pred != nil {
+					pred = in[i].pred.Index
+				}
+				c.defGuardedPred(v, x.g, c.valTerm(x.v, phi.Name()), pred)
+			}
+			out = tv(v)
+		}
+	} else {
+		res := c.valTerm(gvs[len(gvs)-1].v, phi.Name())
+		for i := len(gvs) - 2; i >= 0; i-- {
+			res = tIte(gvs[i].g, c.valTerm(gvs[i].v, phi.Name()), res)
+		}
+		out = tv(c.define(phi.Comment+"."+phi.Name(), res))
 	}
-	out := tv(c.define(phi.Comment+"."+phi.Name(), res))
 	// propagate statically known dynamic type when all agree
 	d := gvs[0].v.Dyn
 	for _, x := range gvs[1:] {
